@@ -77,8 +77,9 @@ def DType.isFloat : DType → Bool
   | .f16 | .f32 | .f64 => true
   | _ => false
 
-/-- dtypes torch implements `max` / `cat` / `float()` for (the unsigned 16/32/64-bit types that `torch.as_tensor`
-produces from NumPy arrays are storage-only: `y_train_and_val.max()` raises NotImplementedError). -/
+/-- dtypes torch implements `max` / `cat` / `float()` for.  The unsigned 16/32/64-bit types that `torch.as_tensor`
+produces from NumPy arrays are storage-only; `xRFM.fit` therefore brings integer (non-bool) targets to int64 on entry
+(a defect repaired by a `fix:` commit: before, `y_train_and_val.max()` raised NotImplementedError for them). -/
 def DType.torchNative : DType → Bool
   | .u16 | .u32 | .u64 => false
   | _ => true
@@ -120,10 +121,9 @@ def encodedCols (l : Logical) (m : Mode) : Cols :=
 `none` = the call raises before reaching a leaf (unsigned 16/32/64-bit labels). -/
 def coerceY (l : Logical) (m : Mode) (r : Rep) : Option Canon :=
   if isClass r then
-    if r.dtype.torchNative then
-      -- labels_to_numerical: reshape(-1) first, so (n,) and (n,1) agree; an (n,k) label matrix would be flattened
-      some { dtype := .f32, shape := .matN (encodedCols l m) }
-    else none
+    -- integer labels are converted to int64 on entry (every integer width, signed or unsigned);
+    -- labels_to_numerical: reshape(-1) first, so (n,) and (n,1) agree; an (n,k) label matrix would be flattened
+    some { dtype := .f32, shape := .matN (encodedCols l m) }
   else
     -- y.float(); unsqueeze(-1) when 1-D
     some { dtype := .f32, shape := match r.shape with | .vec => .matN .one | .col => .matN .one | .mat => .matN .outs }
@@ -136,13 +136,14 @@ def canonY (l : Logical) (m : Mode) : Canon :=
   | .binary | .multi => { dtype := .f32, shape := .matN (encodedCols l m) }
 
 /-- Documented target representations of each kind of data: tensors or arrays; float targets in 32 or 64 bit shaped
-`(n,)`/`(n,1)` (one output) or `(n,k)`; integer labels of any torch-native integer width shaped `(n,)` or `(n,1)`. -/
+`(n,)`/`(n,1)` (one output) or `(n,k)`; integer labels of any integer width (signed or unsigned) shaped `(n,)` or `(n,1)`. -/
 def documentedY (l : Logical) (r : Rep) : Bool :=
   match l with
   | .reg1 => (r.dtype == .f32 || r.dtype == .f64) && (r.shape == .vec || r.shape == .col)
   | .regK => (r.dtype == .f32 || r.dtype == .f64) && r.shape == .mat
   | .binary | .multi =>
-      (r.dtype == .i8 || r.dtype == .i16 || r.dtype == .i32 || r.dtype == .i64 || r.dtype == .u8) &&
+      (r.dtype == .i8 || r.dtype == .i16 || r.dtype == .i32 || r.dtype == .i64 || r.dtype == .u8 ||
+       r.dtype == .u16 || r.dtype == .u32 || r.dtype == .u64) &&
       (r.shape == .vec || r.shape == .col)
 
 /-! ### outputs -/
